@@ -5,6 +5,7 @@ CONSTANTS
   AseArgs <- MCAseArgs
   NliArgs <- MCNliArgs
   Splits <- MCSplits
+  MaxParts = 3
   MaxDepth = 3
 INIT EmitInit
 NEXT EmitNext
